@@ -85,6 +85,12 @@ def run_instance(args):
                 except Exception as e:      # noqa
                     d["native"] = dict(status="replay-crash", error=repr(e))
                     d["reproduced"] = False
+                if not d["reproduced"] and vc.path_id in ex.gc_deferred_paths:
+                    # the path left a finaliser pending because the object was still referenced from the heap; when CPython runs
+                    # it is outside the model, so a refutation that does not replay is no verdict
+                    d["result"] = "unknown"
+                    d["backend"] = d["backend"] + "+finaliser-timing"
+                    refuted -= 1
             out["vcs"].append(d)
         if not ex.vcs and not ex.errors:
             out["errors"].append(["vacuous", "harness produced no verification condition"])
@@ -289,6 +295,8 @@ def conformance(h, ex, seed, k, apply_stubs=True):
                 continue
             m = s.model()
         vals = _values_from_model(m, ex2.symbols)
+        if any(isinstance(v, float) and (v != v or abs(v) > 1e100) for v in vals.values()):
+            continue                      # a model value that does not fit a double (the reals of the encoding are not floats: A-real)
         st, nctx = harness.run_native(h, vals, apply_stubs=apply_stubs)
         res["samples"] += 1
         if st == "ok":
